@@ -397,3 +397,34 @@ package tax
 //@   loop 1 invariant forall i int, j int :: 0 <= i && i < idx && firstCombo(taxLines[i].taxes, tc.Includes, j) && taxLines[i].taxes[j].Percent != nil ==> netOf(old(taxLines[i].total), *taxLines[i].taxes[j].Percent, taxLines[i].total)
 //@   loop 1 invariant forall i int :: 0 <= i && i < idx && noCombo(taxLines[i].taxes, tc.Includes) ==> taxLines[i].total == old(taxLines[i].total)
 //@   loop 1 invariant forall i int, j int :: 0 <= i && i < idx && firstCombo(taxLines[i].taxes, tc.Includes, j) && taxLines[i].taxes[j].Percent == nil ==> taxLines[i].total == old(taxLines[i].total)
+//
+// ---- C12: the percentage a combo gets is the one of the value in force on the tax date
+//
+// the rate of a category that a key selects: the first rate whose key is the key itself,
+// else the first rate whose key the key has as a component
+//@ pred catRatesOK(c *CategoryDef) bool = forall i int :: 0 <= i && i < len(c.Rates) ==> c.Rates[i] != nil
+//@ func (c *CategoryDef) RateDef(key) (r)
+//@   requires c != nil && catRatesOK(c)
+//@   ensures [exact] (exists i int :: 0 <= i && i < len(c.Rates) && c.Rates[i].Key == key) ==> r != nil && r.Key == key && (exists i int :: 0 <= i && i < len(c.Rates) && c.Rates[i] == r && (forall j int :: 0 <= j && j < i ==> c.Rates[j].Key != key))
+//@   ensures [component] (forall i int :: 0 <= i && i < len(c.Rates) ==> c.Rates[i].Key != key) && r != nil ==> (exists i int :: 0 <= i && i < len(c.Rates) && c.Rates[i] == r && Has(key, r.Key) && (forall j int :: 0 <= j && j < i ==> !Has(key, c.Rates[j].Key)))
+//@   ensures [none] r == nil ==> (forall i int :: 0 <= i && i < len(c.Rates) ==> c.Rates[i].Key != key && !Has(key, c.Rates[i].Key))
+//@   loop 1 invariant forall j int :: 0 <= j && j < idx ==> c.Rates[j].Key != key
+//@   loop 2 invariant (forall j int :: 0 <= j && j < len(c.Rates) ==> c.Rates[j].Key != key) && (forall j int :: 0 <= j && j < idx ==> !Has(key, c.Rates[j].Key))
+//
+//@ pred selects(c *CategoryDef, key cbc.Key, q int) bool = key != "" && 0 <= q && q < len(c.Rates) && ((c.Rates[q].Key == key && (forall j int :: 0 <= j && j < q ==> c.Rates[j].Key != key)) || ((forall j int :: 0 <= j && j < len(c.Rates) ==> c.Rates[j].Key != key) && Has(key, c.Rates[q].Key) && (forall j int :: 0 <= j && j < q ==> !Has(key, c.Rates[j].Key))))
+//@ pred surchargeOf(c *Combo, v *RateValueDef) bool = (v.Surcharge == nil ==> c.Surcharge == nil) && (v.Surcharge != nil ==> c.Surcharge != nil && *c.Surcharge == *v.Surcharge)
+// prepareRate: for a combo with a rate key whose rate is not exempt and has values, success
+// means the combo's percentage (and surcharge) are those of the first value of the rate that
+// applies to the tags and the combo's extensions and is in force on the date; no such value
+// is an error. An exempt rate clears them; no rate key leaves the combo alone.
+//@ func (c *Combo) prepareRate(category, tags, date) (err)
+//@   assume-frame civil.Date).String |
+//@   requires c != nil && category != nil && catRatesOK(category) && (forall i int :: 0 <= i && i < len(category.Rates) ==> valuesOK(category.Rates[i]))
+//@   modifies Combo.Ext, Combo.Percent, Combo.Surcharge, map(Extensions)
+//@   footprint c
+//@   ensures [nokey] old(c.Rate) == "" ==> err == nil && c.Percent == old(c.Percent) && c.Surcharge == old(c.Surcharge) && c.Ext == old(c.Ext)
+//@   ensures [undefined] old(c.Rate) != "" && (forall q int :: !selects(category, old(c.Rate), q)) ==> err != nil
+//@   ensures [exempt] err == nil ==> (forall q int :: selects(category, old(c.Rate), q) && category.Rates[q].Exempt ==> c.Percent == nil && c.Surcharge == nil)
+//@   ensures [inforce] err == nil ==> (forall q int :: selects(category, old(c.Rate), q) && !category.Rates[q].Exempt && len(category.Rates[q].Values) > 0 ==> c.Percent != nil && (exists i int :: 0 <= i && i < len(category.Rates[q].Values) && *c.Percent == category.Rates[q].Values[i].Percent && surchargeOf(c, category.Rates[q].Values[i]) && applies(category.Rates[q].Values[i], tags, c.Ext) && inForce(category.Rates[q].Values[i], date) && (forall j int :: 0 <= j && j < i ==> !(applies(category.Rates[q].Values[j], tags, c.Ext) && inForce(category.Rates[q].Values[j], date)))))
+//@   ensures [unavailable] (forall q int :: selects(category, old(c.Rate), q) && !category.Rates[q].Exempt && len(category.Rates[q].Values) > 0 && (forall i int :: 0 <= i && i < len(category.Rates[q].Values) ==> !(applies(category.Rates[q].Values[i], tags, c.Ext) && inForce(category.Rates[q].Values[i], date))) ==> err != nil)
+//@   loop 1 invariant c.Ext != nil && c.Rate == old(c.Rate) && c.Percent == old(c.Percent) && c.Surcharge == old(c.Surcharge)
